@@ -54,3 +54,54 @@ Theorem C02_barrier_returns_flushed : forall c nr,
   cbs s' = [] /\ dq s' = [] /\ sendq s' = [] /\ sbb s' = 0%Z /\ pend s' = 0%Z.
 Proof. exact barrier_returns_flushed. Qed.
 Print Assumptions C02_barrier_returns_flushed.
+
+
+(* ---- the counters and the exit of barrier(), per rank; and the composition over the communicator ---- *)
+From Ygm Require Import RankCount RankBarrier Global.
+
+(* in every execution (any program, oracle, length; finished or blocked in an MPI call): scnt / rcnt are the numbers of
+   send-count / receive-count increments so far and every pair contributed to a count reduction is (rcnt, scnt) at
+   that moment ([hist]: ghost history kept by the machine) *)
+Theorem C02_contributions_are_the_counters : forall c fu p s, Cnt s -> resC Cnt (run fu c p s).
+Proof. exact count_all. Qed.
+Print Assumptions C02_contributions_are_the_counters.
+
+(* for programs whose handlers and callbacks do not call barrier(): barrier() returns only when the last two count
+   reductions of this rank delivered the same pair v with fst v = snd v *)
+Theorem C02_barrier_exit : forall c,
+  (forall u, forallb nobar (c_hprog c u) = true) -> (forall i, forallb nobar (c_cbprog c i) = true) ->
+  forall fu s s', W s -> run fu c PBarrier s = Ok s' -> ExitShape s' /\ W s'.
+Proof. exact barrier_exit. Qed.
+Print Assumptions C02_barrier_exit.
+
+Theorem C02_reductions_stay_well_formed : forall c,
+  (forall u, forallb nobar (c_hprog c u) = true) -> (forall i, forallb nobar (c_cbprog c i) = true) ->
+  forall fu l s s', W s -> run fu c (PActs l) s = Ok s' -> W s'.
+Proof. exact main_W. Qed.
+Print Assumptions C02_reductions_stay_well_formed.
+
+(* THE GLOBAL THEOREM.  [gtr]: the interleaving of the ranks' ghost histories.  Assumed of MPI_Iallreduce: lockstep
+   (a rank snapshots for reduction m+1 only after every rank contributed to m) and that the result is the sum of the
+   contributions.  Given by the rank machines: contributions are the counters (C02_contributions_are_the_counters),
+   barrier() returned on some rank only after reductions k and k+1 delivered the same v with fst v = snd v
+   (C02_barrier_exit).  Then there is an instant t* at which every rank is inside the barrier, every send-count
+   increment has been matched by a completed handler (nothing queued, in flight or executing anywhere), and no rank
+   issues or executes anything from t* until its next snapshot. *)
+Theorem C02_barrier_return_means_global_quiescence :
+  forall (n : nat) (gtr : list (nat * gev)) (hs : nat -> list gev),
+  0 < n ->
+  (forall i, i < n -> view i gtr = rev (hs i)) ->
+  (forall i, i < n -> hist_ok (hs i)) ->
+  Barrier.lockstep n (evs gtr) ->
+  forall (k : nat) (v : Z * Z), fst v = snd v ->
+  forall (pk qk pk1 qk1 : nat -> list (nat * gev)) (rc sc rc1 sc1 : nat -> Z),
+  (forall i, i < n -> gtr = pk i ++ (i, GSnap (rc i) (sc i)) :: qk i /\ cK (view i (pk i)) = k) ->
+  (forall i, i < n -> gtr = pk1 i ++ (i, GSnap (rc1 i) (sc1 i)) :: qk1 i /\ cK (view i (pk1 i)) = S k) ->
+  v = (sumZ n rc, sumZ n sc) -> v = (sumZ n rc1, sumZ n sc1) ->
+  exists tstar rest, evs gtr = tstar ++ rest /\
+    (forall i, i < n ->
+       Barrier.K_ i tstar = S k /\ (exists e, tstar = evs (pk i) ++ Barrier.Snap i :: e) /\ (exists e, evs (pk1 i) = tstar ++ e) /\
+       Barrier.R_ i tstar = Barrier.R_ i (evs (pk1 i)) /\ Barrier.S_ i tstar = Barrier.S_ i (evs (pk1 i))) /\
+    Barrier.totS n tstar = Barrier.totR n tstar.
+Proof. exact barrier_return_means_global_quiescence. Qed.
+Print Assumptions C02_barrier_return_means_global_quiescence.
